@@ -96,6 +96,42 @@ func (f *FS) ApplyTorn(op *Op, keep func(sector int) bool) {
 	}
 }
 
+// ApplySectors applies the bytes of a write that fall into the 512-byte
+// sectors (absolute sector numbers of the file) selected by keep. With grow
+// set, a sector that is not kept still extends the file size (size metadata
+// updated although the data never reached the disk: zeros visible).
+func (f *FS) ApplySectors(op *Op, keep func(absSector int64) bool, grow bool) {
+	if op.Kind != OpWrite {
+		return
+	}
+	ino := f.byIno[op.Ino]
+	if ino == nil || ino.dir {
+		return
+	}
+	const sector = 512
+	start := op.Off
+	end := op.Off + int64(len(op.Data))
+	for s := start - start%sector; s < end; s += sector {
+		lo, hi := s, s+sector
+		if lo < start {
+			lo = start
+		}
+		if hi > end {
+			hi = end
+		}
+		if keep(s / sector) {
+			ino.writeAt(op.Data[lo-start:hi-start], lo)
+		} else if grow && hi > ino.size {
+			ino.size = hi
+		}
+	}
+}
+
+// Sectors returns the absolute 512-byte sector numbers a write touches.
+func (o *Op) Sectors() (first, last int64) {
+	return o.Off / 512, (o.Off + int64(len(o.Data)) - 1) / 512
+}
+
 // SyncedBy returns, for every log index i, the index of the first durability
 // barrier after i that covers it (fsync of the same inode or a global sync), or
 // len(log) if none. Namespace operations are durable at once (assumption
